@@ -304,7 +304,7 @@ class SpecFile:
         self.lemmas = []      # Clause
 
 
-TAGS = re.compile(r'^\{([A-Z0-9, ]+)\}\s*')
+TAGS = re.compile(r'^\{([A-Za-z0-9, ]+)\}\s*')
 LABEL = re.compile(r'^([A-Za-z_][A-Za-z0-9_.\-]*)\s*:(?!:)\s*')
 
 
